@@ -325,7 +325,7 @@ func crashSig(v string, effect string) string {
 // CrashCheck is the main of C05.
 func CrashCheck() {
 	r := ev.New("C05", "fault_enumeration")
-	r.SetBudget(100*time.Second, 25*time.Minute)
+	r.SetBudget(200*time.Second, 25*time.Minute)
 	core.VerifQuiet()
 	if r.ReplayPath != "" {
 		var c CrashCase
